@@ -316,55 +316,61 @@ def run(ctx) -> None:
 
     # ---------------------------------------------------------------- R4
     for eng in ("v2version", "v1version"):
-        fq = f"{eng}.parse_version_info"
-        fn = prog.function(fq)
-        ctx.visit(fq)
-        cfg = cfgs.get(fq)
-        pc = PathCond(cfg)
-        p_ver = fn.params[0]
-        mcalls = [c for c in ast.walk(fn.node) if isinstance(c, ast.Call) and isinstance(c.func, ast.Attribute) and c.func.attr in ("match", "fullmatch", "search")
-                  and unparse(c.func.value).endswith("regexp")]
-        ctx.require(len(mcalls) == 1, f"{fq}: expected one regexp match call")
-        mc = mcalls[0]
-        ctx.check("R4", unparse(mc.args[0]) == p_ver and mc.func.attr in ("match", "fullmatch"), f"{fq}: matches `{p_ver}` from its first character",
-                  f"{fq}: the version string is not matched from its start", unparse(mc), loc=fn.loc(mc))
-        mvar = None
-        for st, v in [(n, n.value) for n in walk_no_nested(fn.node) if isinstance(n, ast.Assign)]:
-            if v is mc and isinstance(st.targets[0], ast.Name):
-                mvar = st.targets[0].id
-        ctx.require(mvar is not None, f"{fq}: match result is not bound to a variable")
-        ex = pc.reach(cfg.exit)
-        none_atom = f"{mvar} is None"
-        ok_none = (none_atom in pc.atoms and ex.implies(~BF.var(none_atom))) or (mvar in pc.atoms and ex.implies(BF.var(mvar)))
-        ctx.check("R4", ok_none, f"{fq}: a failed match never returns normally", f"{fq}: returns normally although the regex did not match",
-                  f"normal return when {ex.to_dnf()}", loc=fn.loc())
-        full = mc.func.attr == "fullmatch"
-        desc = "regexp.fullmatch" if full else ""
-        if not full:
-            for a in pc.atoms:
-                tree = ast.parse(a, mode="eval").body
-                cs = shapes.compare_shape(tree)
-                if cs is None:
-                    continue
-                op, l, r = cs
-                lt, rt = unparse(l), unparse(r)
-                ends = (f"len({mvar}.group())", f"len({mvar}.group(0))", f"{mvar}.end()", f"{mvar}.span()[1]", f"len({mvar}[0])")
-                total = f"len({p_ver})"
-                if rt in ends and lt == total:
-                    lt, rt, op = rt, lt, shapes.mirror(op)
-                if lt in ends and rt == total:
-                    v = BF.var(a)
-                    if op in ("<", "!="):
-                        full = ex.implies(~v)
-                    elif op in ("==", ">="):
-                        full = ex.implies(v)
-                    desc = f"{a}"
-        what = f"{fq}: normal return only for a full-length match" + (f" [{desc}]" if desc else "")
-        if full:
-            ctx.ok("R4", what)
-        else:
-            ctx.bad("R4", f"{fq}: a prefix match is accepted as a full version",
-                    f"`{unparse(mc)}` anchors only the start and nothing compares the match length with len({p_ver}): "
-                    f"the gate accepts a version with trailing garbage, which is then announced/written although it does not match the pattern in full",
-                    loc=fn.loc(mc), what=what,
-                    witness={"cmd": "bumpver test v201712.0033 '{pycalver}' --set-version v201801.0034.5", "announced": "v201801.0034.5"} if eng == "v1version" else None)
+        full_match_rule(ctx, eng, "R4")
+
+
+def full_match_rule(ctx, eng: str, rule: str = "R4") -> None:
+    """parse_version_info of `eng` returns normally only for a full-length match."""
+    prog, cfgs = ctx.prog, ctx.cfgs
+    fq = f"{eng}.parse_version_info"
+    fn = prog.function(fq)
+    ctx.visit(fq)
+    cfg = cfgs.get(fq)
+    pc = PathCond(cfg)
+    p_ver = fn.params[0]
+    mcalls = [c for c in ast.walk(fn.node) if isinstance(c, ast.Call) and isinstance(c.func, ast.Attribute) and c.func.attr in ("match", "fullmatch", "search")
+              and unparse(c.func.value).endswith("regexp")]
+    ctx.require(len(mcalls) == 1, f"{fq}: expected one regexp match call")
+    mc = mcalls[0]
+    ctx.check(rule, unparse(mc.args[0]) == p_ver and mc.func.attr in ("match", "fullmatch"), f"{fq}: matches `{p_ver}` from its first character",
+              f"{fq}: the version string is not matched from its start", unparse(mc), loc=fn.loc(mc))
+    mvar = None
+    for st, v in [(n, n.value) for n in walk_no_nested(fn.node) if isinstance(n, ast.Assign)]:
+        if v is mc and isinstance(st.targets[0], ast.Name):
+            mvar = st.targets[0].id
+    ctx.require(mvar is not None, f"{fq}: match result is not bound to a variable")
+    ex = pc.reach(cfg.exit)
+    none_atom = f"{mvar} is None"
+    ok_none = (none_atom in pc.atoms and ex.implies(~BF.var(none_atom))) or (mvar in pc.atoms and ex.implies(BF.var(mvar)))
+    ctx.check(rule, ok_none, f"{fq}: a failed match never returns normally", f"{fq}: returns normally although the regex did not match",
+              f"normal return when {ex.to_dnf()}", loc=fn.loc())
+    full = mc.func.attr == "fullmatch"
+    desc = "regexp.fullmatch" if full else ""
+    if not full:
+        for a in pc.atoms:
+            tree = ast.parse(a, mode="eval").body
+            cs = shapes.compare_shape(tree)
+            if cs is None:
+                continue
+            op, l, r = cs
+            lt, rt = unparse(l), unparse(r)
+            ends = (f"len({mvar}.group())", f"len({mvar}.group(0))", f"{mvar}.end()", f"{mvar}.span()[1]", f"len({mvar}[0])")
+            total = f"len({p_ver})"
+            if rt in ends and lt == total:
+                lt, rt, op = rt, lt, shapes.mirror(op)
+            if lt in ends and rt == total:
+                v = BF.var(a)
+                if op in ("<", "!="):
+                    full = ex.implies(~v)
+                elif op in ("==", ">="):
+                    full = ex.implies(v)
+                desc = f"{a}"
+    what = f"{fq}: normal return only for a full-length match" + (f" [{desc}]" if desc else "")
+    if full:
+        ctx.ok(rule, what)
+    else:
+        ctx.bad(rule, f"{fq}: a prefix match is accepted as a full version",
+                f"`{unparse(mc)}` anchors only the start and nothing compares the match length with len({p_ver}): "
+                f"the gate accepts a version with trailing garbage, which is then announced/written although it does not match the pattern in full",
+                loc=fn.loc(mc), what=what,
+                witness={"cmd": "bumpver test v201712.0033 '{pycalver}' --set-version v201801.0034.5", "announced": "v201801.0034.5"} if eng == "v1version" else None)
